@@ -269,6 +269,23 @@ def endpoint_walk(ctx):
                             c.func.attr == 'getDBusEndpoints') or 'eplist'
     d_name = assigned_from(lambda c: isinstance(c.func, ast.Attribute) and
                            c.func.attr == 'getConnection') or 'd'
+    # the step is the errback of an endpoint's own Deferred, which nobody
+    # else looks at: if it raises - explicitly, or by re-raising the failure
+    # it was handed (Failure.trap / raiseException) - the walk stops and the
+    # Deferred connect() returned never fires
+    reraise = [n for n in prog._iter_scope(tn.node) if isinstance(
+        n, ast.Raise) or (
+        isinstance(n, ast.Call) and isinstance(n.func, ast.Attribute) and
+        n.func.attr in ('trap', 'raiseException',
+                        'throwExceptionIntoGenerator') and
+        isinstance(n.func.value, ast.Name) and
+        n.func.value.id in tn.params())]
+    ctx.ob('C09.D2', tn.qualname, 'step-never-reraises', not reraise,
+           'the step that moves on to the next address can raise (%s): an '
+           'attempt that fails that way - an unresolvable host name is an '
+           'OSError, not a ConnectError - ends the walk, the remaining '
+           'addresses are never tried and connect() never concludes'
+           % (ast.unparse(reraise[0])[:60] if reraise else ''))
     # try_next_ep
     for p in Interp(prog, exc_edges=False).run(tn):
         if p.outcome == 'raise':
